@@ -132,7 +132,8 @@ def spell(rng, kind, names=NAMES, simple=False):
     return kind.encode()
 
 
-SEPS = [b" ", b" ", b" ", b"\n", b"\t", b"  ", b" \n ", b" # c\n", b" // c\n", b" /* c */ ", b"/*\n*/", b"\r\n", b"\f"]
+SEPS = [b" ", b" ", b" ", b"\n", b"\t", b"  ", b" \n ", b" # c\n", b" // c\n", b" /* c */ ", b"/*\n*/", b"\r\n", b"\f",
+        b"/** d **/", b"/***/", b"/**/", b" /* * ** / */ ", b"/*\n * d\n **/", b"//*\n", b"#*/\n"]
 
 
 def render(rng, seq, linebreaks=True, simple=False):
